@@ -43,6 +43,9 @@ CHECKS = {
     "C16": dict(spec="StdioLifecycle", ref="DESIGN.md §4 C16",
                 text="StdioLifecycle models the shutdown protocol of __aexit__ (close outgoing, join tasks, terminate, grace period, kill) against children that obey or ignore SIGTERM or exit on their own, under normal exit, exception, outer cancellation and a timeout around the context; TLC checks no-child-left-behind, bounded exit and kill-only-after-terminate, and shows that the unshielded variant (the pre-fix behaviour) violates them. All 121 scenarios (11 child behaviours x 4 exit paths x 3 moments) run against REAL child processes with the real clock; terminate/kill/wait calls, exit duration, /proc process state, fd-table delta and the fate of the pending request are recorded and TLC judges the statement's end-state clauses on every run.",
                 note="Real-time check: 2 s of grace plus 2.5 s slack; a duration-only failure is re-run alone before it is reported. Trusted: /proc observations, the process proxy. The trace specification is an observer of end-state clauses; the protocol itself is model-checked."),
+    "C17": dict(spec="Codec", ref="DESIGN.md §4 C17",
+                text="Codec specifies the two encoder paths (orjson / stdlib, with the fallback step), which character classes each writes raw or escaped, and the round trip per (encoder, decoder) pair; TLC checks one-frame (LF and CR are never raw) and round-trip on all class pairs. Two worker processes (orjson importable / blocked) encode every generated JSON value (all atoms over 15 string and 12 number classes, depth-2 containers, depth-3 message shapes, seeded strings over the whole code space, seeded signed/unsigned 64-bit integers) and each decodes both outputs from str and from bytes; TLC judges every case: encodes to a str, no raw LF/CR, exact tagged-tree equality under both decoders, and agreement with the path and escape model (drift).",
+                note="Trusted: TLC, tagged-tree equality computed by the harness (ints exact, floats by float.hex, strings by code points). Assurance inside a character/number class is that of the representatives plus seeded members."),
     "C18": dict(spec="RequestWait", ref="DESIGN.md §4 C18",
                 text="RequestWait with 2 callers is explored exhaustively by TLC; schedules with 2..4 concurrent callers are replayed into the real code and validated. NoCrossTalk holds; NoLostResponse is violated by design (a waiter discards another caller's response) and is a listed known finding; any other signature is reported.",
                 note="The stream's wake-up policy is environment nondeterminism. Known finding keyed on clause=NoLostResponse consumer!=owner discarded."),
